@@ -38,6 +38,8 @@ def _forall_pat(vs, body, pat):
 
 
 class Frame:
+    top_contract = None        # contract of the function under verification (field type hints apply to inlined callees too)
+
     def __init__(self, func: FuncInfo | None, module: ModuleInfo, contract=None, parent_env=None):
         self.func = func
         self.module = module
@@ -66,6 +68,8 @@ class Frame:
             if f.contract is not None and name in f.contract.types:
                 return parse_ann(f.contract.types[name])
             f = f.parent_env
+        if Frame.top_contract is not None and name in Frame.top_contract.types and "." in name:
+            return parse_ann(Frame.top_contract.types[name])
         return None
 
 
@@ -102,6 +106,16 @@ class ExecutorBase:
         t = self.st.fresh_val(base)
         self.assume_type(t, ty)
         return SV(t, ty)
+
+    def norm_ty(self, ty: Ty | None):
+        """resolve module-level type aliases (TagValueType = int | float | str | None)"""
+        if ty is None or ty.name in ("int", "float", "bool", "str", "none", "list", "dict", "set", "tuple", "any", "num"):
+            return ty
+        if self.repo.resolve_class(ty.name) is None:
+            al = self.repo.alias_type(ty.name)
+            if al is not None:
+                return al.with_nullable(al.nullable or ty.nullable)
+        return ty
 
     def cls_of(self, ty: Ty | None, fr: Frame | None = None) -> ClassInfo | None:
         if ty is None or ty.name in ("int", "float", "bool", "str", "none", "list", "dict", "set", "tuple", "any",
@@ -196,6 +210,11 @@ class ExecutorBase:
             c = None
         else:
             ci = self.repo.resolve_class(n, fr.module if fr else None)
+            if ci is None:
+                al = self.repo.alias_type(n)
+                if al is not None:
+                    self.assume_type(term, al.with_nullable(al.nullable or ty.nullable), fr, _depth)
+                return          # unknown / external class: no constraint
             if ci is not None and ci.is_enum(self.repo):
                 mem = self.enum_members(ci)
                 if ci.is_flag(self.repo):
@@ -312,8 +331,12 @@ class ExecutorBase:
 
     def ev_Name(self, node, fr):
         name = node.id
-        if self.old_mode is not None and name in self.old_mode[1] and fr.lookup(name) is not None:
-            return self.old_mode[1][name]
+        if self.old_mode is not None and name in self.old_mode[1]:
+            f = fr
+            while f is not None and name not in f.locals:
+                f = f.parent_env
+            if f is not None and f is self.old_mode[2]:
+                return self.old_mode[1][name]
         sv = fr.lookup(name)
         if sv is not None:
             return sv
